@@ -883,6 +883,16 @@ func (sc *SpecCtx) call(x *ast.CallExpr) SV {
 					v.t = slBase(v.t)
 				}
 				return SV{and(le(q.heapGet(sc.old, allocKey), v.t), lt(v.t, q.heapGet(sc.heap, allocKey))), boolT}
+			case "captured":
+				// captured(w): the call that binds witness w was executed on this path
+				id, ok := x.Args[0].(*ast.Ident)
+				if !ok {
+					sc.fail("captured: witness name expected")
+				}
+				if v, ok := sc.vars[id.Name+"$captured"]; ok {
+					return v
+				}
+				sc.fail("captured: %s is not a witness", id.Name)
 			case "memsame":
 				// memsame(T): no element of a []T / [n]T block that existed in the old state has changed
 				t := sc.typeByExpr(x.Args[0])
